@@ -293,13 +293,17 @@ func runClient(sc *script) int {
 		}
 		reads++
 		hdr := ""
+		expect := map[string]string{} // the x-expect-* headers the runner adds for the reference server
 		for _, h := range req.RequestHeaders {
 			if strings.EqualFold(h.Name, "x-test-case-name") && len(h.Value) > 0 {
 				hdr = h.Value[0]
 			}
+			if strings.HasPrefix(strings.ToLower(h.Name), "x-expect-") {
+				expect[strings.ToLower(h.Name)] = strings.Join(h.Value, ",")
+			}
 		}
 		ev := map[string]any{"name": req.TestName, "host": req.Host, "port": req.Port, "protocol": int(req.Protocol), "http_version": int(req.HttpVersion),
-			"tls": len(req.ServerTlsCert) > 0, "client_cert": req.ClientTlsCreds != nil, "name_header": hdr, "stream_type": int(req.StreamType), "codec": int(req.Codec), "compression": int(req.Compression), "bytes": len(b) + 4}
+			"tls": len(req.ServerTlsCert) > 0, "client_cert": req.ClientTlsCreds != nil, "name_header": hdr, "stream_type": int(req.StreamType), "codec": int(req.Codec), "compression": int(req.Compression), "bytes": len(b) + 4, "expect": expect}
 		if sc.Probe {
 			ev["probe"] = probe(req)
 		}
